@@ -222,19 +222,31 @@ func (a Complex) M__rdivmod__(other Object) (Object, Object, error) {
 	return NotImplemented, None, nil
 }
 
+// complexPow returns a ** b with the errors that complex_pow in CPython raises
+func complexPow(a, b Complex) (Object, error) {
+	if a == 0 && (imag(b) != 0 || real(b) < 0) {
+		return nil, ExceptionNewf(ZeroDivisionError, "0.0 to a negative or complex power")
+	}
+	r := cmplx.Pow(complex128(a), complex128(b))
+	if math.IsInf(real(r), 0) || math.IsInf(imag(r), 0) {
+		return nil, ExceptionNewf(OverflowError, "complex exponentiation")
+	}
+	return Complex(r), nil
+}
+
 func (a Complex) M__pow__(other, modulus Object) (Object, error) {
 	if modulus != None {
 		return NotImplemented, nil
 	}
 	if b, ok := convertToComplex(other); ok {
-		return Complex(cmplx.Pow(complex128(a), complex128(b))), nil
+		return complexPow(a, b)
 	}
 	return NotImplemented, nil
 }
 
 func (a Complex) M__rpow__(other Object) (Object, error) {
 	if b, ok := convertToComplex(other); ok {
-		return Complex(cmplx.Pow(complex128(b), complex128(a))), nil
+		return complexPow(b, a)
 	}
 	return NotImplemented, nil
 }
